@@ -337,6 +337,47 @@ def reassign(tree, roles, rng, c):
     return go(tree)
 
 
+def to_placeholders(tree, roles, c, tables, email_ph):
+    """the same entry with every sensitive literal ALREADY equal to what the redactor would put there"""
+    ZONE = {"query", "filter", "update", "updates", "q", "u", "deletes", "documents", "pipeline", "arrayFilters"}
+    KEPT_BOOL_KEYS = {"returnStoredSource", "concurrent", "exact", "scoreDetails"}
+
+    def go(t, inzone=False, key=None, depth=0):
+        if isinstance(t, Obj):
+            return Obj([(k, go(v, inzone or (depth == 2 and k in ZONE), k, depth + 1)) for k, v in t])
+        if isinstance(t, list):
+            return [go(v, inzone, key, depth) for v in t]
+        if isinstance(t, Num):
+            for tok, role in roles.items():
+                if role == "N" and tok in str(t) and c.n:
+                    return Num("0")
+            return t
+        if isinstance(t, str):
+            ms = [m.group(0) for m in TOK.finditer(t) if roles.get(m.group(0)) in ("S", "E")]
+            if ms:
+                return email_ph if roles[ms[0]] == "E" else c.repl
+            if roles.get(t) == "D":
+                return tables["RedactedISODate"]
+            if roles.get(t) == "O":
+                return tables["RedactedObjectId"]
+            if roles.get(t) == "X":
+                return tables["RedactedUUID"]
+            return t
+        if isinstance(t, bool) and c.b and inzone and key not in KEPT_BOOL_KEYS:
+            return False
+        return t
+    return go(tree)
+
+
+def to_json_blanks(t):
+    """to_json with one blank behind every ':' and ',' (what many drivers and `jq -c`-less tools write)"""
+    if isinstance(t, Obj):
+        return "{" + ", ".join(json.dumps(k, ensure_ascii=False) + ": " + to_json_blanks(v) for k, v in t) + "}"
+    if isinstance(t, list) and not isinstance(t, Obj):
+        return "[" + ", ".join(to_json_blanks(e) for e in t) + "]"
+    return to_json(t)
+
+
 def oracle_c02(tables, seed, tier, deep):
     n = 1500 if (tier == "thorough" or deep) else 200
     cases = corpus_cases() + grammar_cases(seed ^ 0x2, n)
@@ -385,6 +426,30 @@ def oracle_c02(tables, seed, tier, deep):
             k = next((j for j in range(min(len(ta), len(tb))) if ta[j] != tb[j]), min(len(ta), len(tb)))
             viol.append({"site": "interference:spelling", "detail": "the same entry with characters written as escapes (%s) comes out differently at byte %d: %r vs %r" % (mode, k, ta[max(0, k - 60):k + 60], tb[max(0, k - 60):k + 60]),
                          "cfg": c.s(), "cli_flags": c.cli(), "input": pairs[i][0].text, "input2": cs3.text})
+    # entries whose secrets ALREADY equal their placeholders, written with blanks behind ':' and ',': they must come out exactly like the
+    # same entries (same spelling) with other secrets - "nothing was replaced" is not something the output may show
+    try:
+        email_ph = json.load(open(os.path.join(BUILD, "facts.json")))["emailPH"]
+    except Exception:
+        email_ph = "redacted@redacted.com"
+    ph_pairs, ph_twins, ph_meta = [], [], []
+    for i, (cs, c) in enumerate(pairs[:(300 if (tier == "thorough" or deep) else 80)]):
+        if c.eager or not c.repl or c.repl.startswith("$") or has_dups(cs.tree):
+            continue
+        a_ = Case(cs.tree, cs.roles)
+        a_.text = to_json_blanks(to_placeholders(cs.tree, cs.roles, c, tables, email_ph))
+        b_ = Case(cs.tree, cs.roles)
+        b_.text = to_json_blanks(twins[i][0].tree)
+        if "\n" in a_.text or "\n" in b_.text:
+            continue
+        ph_pairs.append((a_, c)); ph_twins.append((b_, c)); ph_meta.append(i)
+    ra, rb = run_lines(ph_pairs), run_lines(ph_twins)
+    for (a_, c), (b_, _), x, y, i in zip(ph_pairs, ph_twins, ra, rb, ph_meta):
+        if x != y and r1[i] == r2[i]:
+            tx, ty = out_text(x) or x, out_text(y) or y
+            k = next((j for j in range(min(len(tx), len(ty))) if tx[j] != ty[j]), min(len(tx), len(ty)))
+            viol.append({"site": "interference:placeholder-valued", "detail": "an entry whose secrets already equal their placeholders comes out differently from the same entry with other secrets, at byte %d: %r vs %r" % (k, tx[max(0, k - 60):k + 60], ty[max(0, k - 60):k + 60]),
+                         "cfg": c.s(), "cli_flags": c.cli(), "input": a_.text, "input2": b_.text})
     # whole streams: the outputs for [L, L] and [L, L'] (and [L, X, L] / [L, X, L']) must be the same bytes - the output may not
     # even reveal WHETHER two entries carry the same secrets
     sops, smeta = [], []
@@ -405,7 +470,7 @@ def oracle_c02(tables, seed, tier, deep):
         if a != b:
             viol.append({"site": "interference:stream", "detail": "a stream holding an entry twice and the same stream with the secrets of the second copy re-assigned give different output (%d vs %d bytes)" % (len(a), len(b)),
                          "cfg": c.s(), "cli_flags": c.cli(), "input_hex": hx(da), "input2_hex": hx(db)})
-    return result(viol, 2 * len(pairs) + len(sops) + len(spelled), differing, "pairs (L, L') of grammar lines, L' = class-preserving re-assignment of every sensitive literal (length x1000, JSON metacharacters, equal/unequal); distinct_nontrivial = pairs whose inputs really differ",
+    return result(viol, 2 * len(pairs) + len(sops) + len(spelled) + 2 * len(ph_pairs), differing, "pairs (L, L') of grammar lines, L' = class-preserving re-assignment of every sensitive literal (length x1000, JSON metacharacters, equal/unequal); distinct_nontrivial = pairs whose inputs really differ",
                   {}, [{"L": pairs[0][0].text[:300], "L2": twins[0][0].text[:300]}] if pairs else [])
 
 
@@ -1256,6 +1321,38 @@ def oracle_c13_visible(tables, seed, tier, deep):
             filt = get_path(o, ("attr", "command", "filter"))
             if isinstance(filt, Obj) and filt.keys() != [py_hash_name(rp, nm)]:
                 viol.append({"site": "visible:filter-key", "detail": "field %r renamed to %r, expected %r" % (nm, filt.keys(), py_hash_name(rp, nm)), "cfg": c.s(), "cli_flags": c.cli(), "input": cs.text, "output": t})
+    # the same names inside the command WRAPPED by explain, in an aggregate with $lookup / $out, in bulkWrite's nsInfo and in an
+    # originating command: one name -> one pseudonym wherever it stands (a position visited twice shows as the pseudonym of a pseudonym)
+    wrapped = []
+    for i, nm in enumerate(names[:12]):
+        rp = repls[i % len(repls)]
+        db = names[(i * 7 + 3) % len(names)]
+        if "$" in nm or "$" in db:
+            continue
+        inner = Obj([("find", nm), ("filter", Obj([("k", Num("1"))])), ("$db", db)])
+        agg = Obj([("aggregate", nm), ("pipeline", [Obj([("$lookup", Obj([("from", nm), ("as", "x"), ("localField", "a"), ("foreignField", "b")]))]), Obj([("$out", Obj([("db", db), ("coll", nm)]))])]), ("$db", db)])
+        lines_ = [
+            (Obj([("explain", inner), ("verbosity", "queryPlanner"), ("$db", db)]), [("attr", "command", "explain", "find"), ("attr", "command", "explain", "$db"), ("attr", "command", "$db")], [nm, db, db]),
+            (Obj([("explain", agg), ("$db", db)]), [("attr", "command", "explain", "aggregate"), ("attr", "command", "explain", "pipeline", 0, "$lookup", "from"), ("attr", "command", "explain", "pipeline", 1, "$out", "coll"), ("attr", "command", "explain", "pipeline", 1, "$out", "db")], [nm, nm, nm, db]),
+            (Obj([("bulkWrite", Num("1")), ("ops", [Obj([("insert", Num("0")), ("document", Obj([("k", Num("1"))]))])]), ("nsInfo", [Obj([("ns", db + "." + nm)])]), ("$db", "admin")]), [("attr", "command", "nsInfo", 0, "ns")], [db + "." + nm]),
+        ]
+        for cmd_, pths, vals_ in lines_:
+            line = Obj([("c", "COMMAND"), ("msg", "Slow query"), ("attr", Obj([("ns", db + "." + nm), ("command", cmd_), ("originatingCommand", inner)]))])
+            wrapped.append((Case(line), Cfg(repl=rp, w=True), pths + [("attr", "originatingCommand", "find"), ("attr", "ns")], vals_ + [nm, db + "." + nm], rp))
+    wres = run_lines([(cs, c) for cs, c, _, _, _ in wrapped])
+    for (cs, c, pths, vals_, rp), r in zip(wrapped, wres):
+        t = out_text(r)
+        if t is None:
+            continue
+        o = parse_json(t)
+        for pth, v_ in zip(pths, vals_):
+            try:
+                got = get_path(o, pth)
+            except Exception:
+                got = None
+            if got != py_hash_name(rp, v_):
+                viol.append({"site": "visible:" + "/".join(str(x) for x in pth if not isinstance(x, int)), "detail": "name %r (replacement %r) at %s comes out as %r, expected its pseudonym %r" % (v_, rp, "/".join(map(str, pth)), got, py_hash_name(rp, v_)),
+                             "cfg": c.s(), "cli_flags": c.cli(), "input": cs.text, "output": t})
     mv, mn = many_names(tier, deep)
     viol += mv
     # pseudonyms are a function of the name and the replacement text only: also with --encrypt on (whatever the key)
@@ -1266,7 +1363,7 @@ def oracle_c13_visible(tables, seed, tier, deep):
         oe = parse_json(te) if te else None
         if oe is None or get_path(oe, ("attr", "ns")) != py_hash_name("REDACTED", "shop.orders") or get_path(oe, ("attr", "command", "filter")).keys() != [py_hash_name("REDACTED", "customer")]:
             viol.append({"site": "visible:encrypt-changes-pseudonyms", "detail": "with --encrypt (key #%d) the pseudonyms are not the ones computed from name and replacement text alone" % encv, "cfg": ce.s(), "input": le, "output": te})
-    return viol, len(pairs) + len(plans) + mn + 2
+    return viol, len(pairs) + len(plans) + len(wrapped) + mn + 2
 
 
 def with_visible(fn):
@@ -1914,6 +2011,37 @@ def oracle_c10(tables, seed, tier, deep):
             continue
         if not r.startswith("ok ") or unhxb(r[3:]).decode("utf-8", "replace") != li:
             viol.append({"site": "equiv:decrypt:" + site_of(p), "detail": "encrypt-mode leaf does not decrypt to the input leaf %r (%s)" % (str(li)[:60], r[:40]), "cfg": b.s(), "input": cs.text})
+    # HISTORY: a value that an earlier run with the same key produced (a log that is redacted a second time, a ciphertext pasted into a
+    # query) is a literal like any other - encrypted again, to a ciphertext that decrypts to it; and the plaintext next to it gets the
+    # ciphertext it got in the earlier run
+    import tempfile, shutil
+    hw = tempfile.mkdtemp(prefix="verif_c10h_")
+    try:
+        hkey = os.path.join(hw, "k.key")
+        vals = ["alice-7", "zqhistoryvalue", "Z" * 40, "a@b.example"]
+        mk = lambda vs: to_json(Obj([("c", "COMMAND"), ("msg", "Slow query"), ("attr", Obj([("ns", "d.c"), ("command", Obj([("find", "c"), ("filter", Obj([("f%d" % i, v) for i, v in enumerate(vs)]))]))]))])) + "\n"
+        open(os.path.join(hw, "in1.log"), "w").write(mk(vals))
+        rc1, _, se1 = run_cli(["redact", os.path.join(hw, "in1.log"), "-o", os.path.join(hw, "out1.log"), "--encrypt", "--encryptionKeyFile", hkey], cwd=hw)
+        if rc1 == 0:
+            f1 = get_path(parse_json(open(os.path.join(hw, "out1.log"), encoding="utf-8").read()), ("attr", "command", "filter"))
+            cts1 = [f1.get("f%d" % i) for i in range(len(vals))]
+            open(os.path.join(hw, "in2.log"), "w").write(mk(vals + cts1))
+            rc2, _, se2 = run_cli(["redact", os.path.join(hw, "in2.log"), "-o", os.path.join(hw, "out2.log"), "--encrypt", "--encryptionKeyFile", hkey], cwd=hw)
+            if rc2 == 0:
+                f2 = get_path(parse_json(open(os.path.join(hw, "out2.log"), encoding="utf-8").read()), ("attr", "command", "filter"))
+                for i, v in enumerate(vals):
+                    if f2.get("f%d" % i) != cts1[i]:
+                        viol.append({"site": "history:not-deterministic", "detail": "the same plaintext under the same key file gets another ciphertext in a second run", "cfg": "-", "cli_flags": ["--encrypt"], "input": v})
+                for j, ct in enumerate(cts1):
+                    got = f2.get("f%d" % (len(vals) + j))
+                    if got == ct:
+                        viol.append({"site": "history:ciphertext-kept", "detail": "a literal that is a ciphertext of an earlier run is emitted unchanged (in clear: it is what the client sent), so two different literals - %r and its ciphertext - share one output" % vals[j], "cfg": "-", "cli_flags": ["--encrypt"], "input": ct})
+                        continue
+                    rcd, sod, sed = run_cli(["decrypt", got or "", "--decryptionKeyFile", hkey], cwd=hw)
+                    if rcd != 0 or not sod.endswith(("Raw value: " + ct + "\n").encode()):
+                        viol.append({"site": "history:ciphertext-of-ciphertext", "detail": "the output for a literal that is itself a ciphertext does not decrypt to that literal (exit %d, %r)" % (rcd, sod[-80:]), "cfg": "-", "cli_flags": ["--encrypt"], "input": ct})
+    finally:
+        shutil.rmtree(hw, ignore_errors=True)
     # separate processes: same key, same input -> same bytes
     sample = [(cs, b) for cs, a, b, c in trip[:40]]
     again = run_lines(sample)
